@@ -221,7 +221,8 @@ _reg(Tool("reduce", "agg", (1, 1),
           lambda S, F, P, V: a.reduce(F["fn"], S[0], *_positional_opt(V, "initial")),
           lambda S, F, P, V: functools.reduce(F["fn"], S[0], *_positional_opt(V, "initial")),
           roles=(("fn", "derive"),), profiles=(I,)))
-_BUILTIN_OPS = {"add": operator.add, "max": builtins.max, "concat": operator.concat}
+# "none": not a callable at all - functools.reduce only notices when it has to combine two values
+_BUILTIN_OPS = {"add": operator.add, "max": builtins.max, "concat": operator.concat, "none": None}
 # the reduction is a C-level callable: no double can log its calls, but what it does to the items is observable
 _reg(Tool("reduce_builtin", "agg", (1, 1),
           lambda S, F, P, V: a.reduce(_BUILTIN_OPS[P["op"]], S[0], *_positional_opt(V, "initial")),
